@@ -4,6 +4,7 @@ import Driver.TxCacheDrv
 import Driver.ImmunityDrv
 import Driver.LRUDrv
 import Driver.PersistDrv
+import Driver.MiscDrv
 open SV
 
 def tokens (line : String) : List String :=
@@ -56,5 +57,9 @@ def main (args : List String) : IO UInt32 := do
   | ["immunity"] => loopState stdin stdout Drv.Immunity.step {}; return 0
   | ["lru"] => loopState stdin stdout Drv.LRU.step {}; return 0
   | ["persist"] => loopState stdin stdout Drv.Persist.step {}; return 0
+  | ["adapter"] => loopState stdin stdout Drv.Misc.aStep {}; return 0
+  | ["unit"] => loopState stdin stdout Drv.Misc.uStep SV.Unit.U.init; return 0
+  | ["fifo"] => loopState stdin stdout Drv.Misc.fStep (SV.Fifo.Cache.init 2 1); return 0
+  | ["timecache"] => loopState stdin stdout Drv.Misc.tStep {}; return 0
   | ["shard"] => loopStateless stdin stdout shardStep; return 0
   | _ => IO.eprintln "usage: svdriver <component>"; return 2
